@@ -183,7 +183,7 @@ CHECKS["C13"] = {
 }
 
 # ---------------------------------------------------------------- C01
-WORLD = ["internal_ctlog/zz_verif_world.go"]
+WORLD = ["internal_ctlog/zz_verif_world.go", "internal_ctlog/zz_verif_c09.go", "internal_ctlog/zz_verif_c17.go", "internal_ctlog/zz_verif_c02.go", "internal_ctlog/zz_verif_c03.go", "internal_ctlog/zz_verif_c01.go"]
 c01_cases = [
     # VerifC01(n0, rounds, pool, faults, crashes, clock) ; clock 0 = arbitrary readings, 1 = strictly increasing
     case("n0=0 1 round pool 1 F=1 C=0 arbitrary clock", "VerifC01", [0, 1, 1, 1, 0, 0], ["final", "audited", "fatal"], Q),
@@ -291,6 +291,9 @@ c17_cases = [
     case("stop by the read-only date", "VerifC17Stop", [1, 1], ["stopped"], Q),
     case("stop by a fatal lock failure", "VerifC17Stop", [2, 0], ["stopped"], Q),
     case("stop by a fatal lock failure after two rounds", "VerifC17Stop", [2, 2], ["stopped"], T),
+    case("HTTP answer: rejected from a full pool (503)", "VerifC09Status", [0], ["answered"], Q),
+    case("HTTP answer: evicted (503 retry later)", "VerifC09Status", [1], ["answered"], Q),
+    case("HTTP answer: read-only log (410)", "VerifC09Status", [2], ["answered"], Q),
 ]
 CHECKS["C17"] = {
     "level": "model_checking",
@@ -390,6 +393,22 @@ CHECKS["C08"] = {
     "assumptions": WORLD_ASSUME + ["tampering is applied to what Fetch returns during the restart and the following round", "comparison is on Merkle-covered content; a tampered data tile that keeps the covered fields but alters uncovered ones is accepted by LoadLog (observation, DESIGN.md)"],
 }
 
+# ---------------------------------------------------------------- C09
+c09_cases = []
+for kind, clen, ep in [(0, 1, 0), (0, 3, 0), (1, 2, 1), (2, 3, 1), (2, 4, 1), (1, 1, 1), (2, 2, 1), (0, 2, 1), (1, 2, 0)]:
+    ok = not ((kind >= 1 and clen < 2) or (kind == 2 and clen < 3) or ((kind >= 1) != (ep == 1)))
+    c09_cases.append(case("submit kind %d chain %d endpoint %d" % (kind, clen, ep), "VerifC09Submit", [kind, clen, ep], ["rejected"] + (["accepted"] if ok else []), Q))
+c09_cases += [case("status mode %d" % m, "VerifC09Status", [m], ["answered"], Q) for m in range(4)]
+c09_cases.append(case("roots", "VerifC09Roots", [], ["installed"], Q))
+CHECKS["C09"] = {
+    "level": "model_checking",
+    "jobs": [dict(CTLOG, harness=sorted(set(WORLD)), native=False, cases=c09_cases)],
+    "bounds": {"quick": "abstract chains of 1-4 certificates with symbolic Raw/TBS/SPKI bytes; certificate, precertificate, precertificate with a precertificate signing certificate; both endpoints; validator accepts or rejects (symbolic); malformed poison extension; full pool, eviction, read-only and failed-round answers; root-set installation with symbolic PEM bytes",
+               "thorough": "same"},
+    "assumptions": WORLD_ASSUME + ["X.509 path validation, EKU and NotAfter-window enforcement inside certificate-transparency-go are NOT encoded: ctfe.ValidateChain is a stub that accepts or rejects nondeterministically and whose arguments (root pool, window pointers, EKU list) are checked; the claim is 'accepted exactly when the validator accepts, invoked with the right trust configuration'",
+                                   "IsPrecertificate / BuildPrecertTBS are functions of the abstract certificate; JSON request/response framing is modelled; PEM parsing is a stub"],
+}
+
 # ---------------------------------------------------------------- manifest texts
 NOT_APPLICABLE = {}
 _WORLD_NOTE = ("environment = the ctlog world of DESIGN.md §3.1: in-memory object storage and a correct CAS lock store with per-operation crash/fault injection, "
@@ -418,6 +437,10 @@ MANIFEST_TEXT = {
     "C08": {
         "text": "bounded symbolic execution of LoadLog (all verification branches), uploadIssuer, applyStagedUploads and a following round while an adversary controls what Fetch returns for an object of each class (checkpoint, right-edge hash tiles, data tile, staging bundle with the lock ahead of storage, issuer): deleted, swapped/rolled back, replaced by fully symbolic bytes (8-byte symbolic windows for long objects), truncated; the log refuses to load, stops, or the next committed checkpoint is the Merkle tree hash of the untampered committed leaves plus the newly sequenced entry",
         "note": _WORLD_NOTE + "; ideal hashing makes 'verification passed' imply byte equality of Merkle-covered content; uncovered content (fingerprints, names) may be altered without contradicting C08 (observation in DESIGN.md); byte-level mutation of the signed checkpoint itself is C11",
+    },
+    "C09": {
+        "text": "bounded symbolic execution of addChainOrPreChain (and lowPriority, SetRootsFromPEM, rootPool) around a stubbed chain validator: the validator is checked to receive the current root pool, the shard's NotAfter window and the serverAuth EKU; for accepted abstract chains (symbolic Raw/TBS/SPKI bytes; certificate, precertificate, precertificate signing certificate) the logged entry, issuers and the SCT (version, log ID, timestamp, extension, signature over an independently derived MerkleTreeLeaf) equal an independent derivation; rejected or mis-routed submissions get a client error and leave no leaf; pool-full/evicted/read-only/failed answers map to 503/503/410/500",
+        "note": "PARTIAL CLAIM: X.509 path building, EKU and NotAfter enforcement live inside certificate-transparency-go (ASN.1, math/big, reflection) and are not encoded — ctfe.ValidateChain is a nondeterministic stub with checked arguments; PEM and JSON framing are modelled",
     },
     "C07": {
         "text": "bounded symbolic execution of the deduplication paths (current pool, in-sequencing map, cache) with up to five submissions of symbolic bytes, so that every duplicate pattern is decided by the solver, placed before, during (every yield point) and after rounds, across cache rollback to any earlier state, failed rounds and a restart; plus admission under eviction; equal entries get the same index and timestamp, each acknowledged index holds the entry, and leaves are assigned exactly once",
